@@ -318,6 +318,65 @@ pub fn guarded<T>(f: impl FnOnce() -> T) -> Result<T, PanicInfo> {
 }
 
 // ---------------------------------------------------------------------------------------------
+// identity of the process: who called delta, and whether stdout is a terminal
+
+static SAVED_STDOUT: std::sync::atomic::AtomicI32 = std::sync::atomic::AtomicI32::new(-1);
+
+/// Make fd 1 of this process a pseudo-terminal of the given size (delta asks `isatty(1)` and
+/// the window size to choose the fill method and the default width).  The master side is
+/// drained by a thread.  The previous stdout is kept and can be put back with `restore_stdout`.
+pub fn attach_pty_stdout(cols: u16, rows: u16) -> bool {
+    unsafe {
+        let mut master: libc::c_int = -1;
+        let mut slave: libc::c_int = -1;
+        let ws = libc::winsize { ws_row: rows, ws_col: cols, ws_xpixel: 0, ws_ypixel: 0 };
+        if libc::openpty(&mut master, &mut slave, std::ptr::null_mut(), std::ptr::null(), &ws) != 0 {
+            return false;
+        }
+        let saved = libc::dup(1);
+        SAVED_STDOUT.store(saved, std::sync::atomic::Ordering::SeqCst);
+        libc::dup2(slave, 1);
+        libc::close(slave);
+        std::thread::spawn(move || {
+            let mut buf = [0u8; 4096];
+            loop {
+                let n = libc::read(master, buf.as_mut_ptr() as *mut libc::c_void, buf.len());
+                if n <= 0 {
+                    break;
+                }
+            }
+        });
+        libc::isatty(1) == 1
+    }
+}
+
+pub fn restore_stdout() {
+    let saved = SAVED_STDOUT.swap(-1, std::sync::atomic::Ordering::SeqCst);
+    if saved >= 0 {
+        unsafe {
+            libc::dup2(saved, 1);
+            libc::close(saved);
+        }
+    }
+}
+
+/// An identity is the argv of the process that called delta; a trailing pseudo-argument `@pty`
+/// asks for stdout to be a terminal (80x24).  Must be applied once, before the first Session.
+pub fn apply_identity(identity: &[String]) {
+    let pty = identity.last().map(|s| s == "@pty").unwrap_or(false);
+    let real: Vec<String> = identity.iter().filter(|s| *s != "@pty").cloned().collect();
+    if pty && !attach_pty_stdout(80, 24) {
+        eprintln!("cannot create a pseudo-terminal");
+        std::process::exit(2);
+    }
+    dut::verif_api::set_calling_process(&real);
+}
+
+pub fn identity_wants_tty(identity: &[String]) -> bool {
+    identity.last().map(|s| s == "@pty").unwrap_or(false)
+}
+
+// ---------------------------------------------------------------------------------------------
 // known findings
 
 #[derive(Clone, Debug)]
@@ -461,7 +520,7 @@ pub fn worker_main(prop: &dyn Prop, a: &WorkerArgs) -> i32 {
     crate::exittrap::capture_stderr();
     let ids = prop.identities();
     let identity = ids[a.shard % ids.len()].clone();
-    dut::verif_api::set_calling_process(&identity);
+    apply_identity(&identity);
     let scratch = verif_root().join("target/scratch");
     let _ = fs::create_dir_all(&scratch);
     let total = prop.cases(a.tier);
@@ -1099,7 +1158,7 @@ pub fn replay_main(prop: &dyn Prop, file: &Path, quiet: bool) -> i32 {
         }
     };
     let identity: Vec<String> = v["identity"].as_array().map(|a| a.iter().map(|x| x.as_str().unwrap_or("").to_string()).collect()).unwrap_or_else(|| prop.identities()[0].clone());
-    dut::verif_api::set_calling_process(&identity);
+    apply_identity(&identity);
     let scratch = verif_root().join("target/scratch");
     let _ = fs::create_dir_all(&scratch);
     let mut ctx = Ctx::new(Tier::Quick, 0, identity, scratch, 99);
@@ -1121,6 +1180,7 @@ pub fn replay_main(prop: &dyn Prop, file: &Path, quiet: bool) -> i32 {
             Err(p) => Verdict::Fail(p.failure()),
         }
     };
+    restore_stdout();
     match verdict {
         Verdict::Pass | Verdict::Skip(_) => {
             if !quiet {
@@ -1153,7 +1213,7 @@ pub fn shrink_main(prop: &dyn Prop, file: &Path) -> i32 {
         None => return 2,
     };
     let identity: Vec<String> = v["identity"].as_array().map(|a| a.iter().map(|x| x.as_str().unwrap_or("").to_string()).collect()).unwrap_or_else(|| prop.identities()[0].clone());
-    dut::verif_api::set_calling_process(&identity);
+    apply_identity(&identity);
     let scratch = verif_root().join("target/scratch");
     let _ = fs::create_dir_all(&scratch);
     let mut ctx = Ctx::new(Tier::Quick, 0, identity.clone(), scratch, 95);
@@ -1171,6 +1231,7 @@ pub fn shrink_main(prop: &dyn Prop, file: &Path) -> i32 {
     let want = match run(&tape, &mut ctx) {
         Some(s) => s,
         None => {
+            restore_stdout();
             println!("{}", json!({"tape": tape_to_json(&tape), "reproduced": false}));
             return 0;
         }
@@ -1257,6 +1318,7 @@ pub fn shrink_main(prop: &dyn Prop, file: &Path) -> i32 {
     while tape.last() == Some(&0) {
         tape.pop();
     }
+    restore_stdout();
     println!("{}", json!({"tape": tape_to_json(&tape), "reproduced": true, "signature": want, "evaluations": evals}));
     0
 }
